@@ -186,3 +186,12 @@ package ldb
 //@   ensures result.puts != nil && result.deletes != nil
 //@   ensures result.seqNo == 0
 //@   ensures[C18] gget("ldbbatch", result.b) == 0
+
+// a failed delete while a bucket is being dropped ends the operation (C18)
+//@ func deleteBucket
+//@   props C18
+//@   nopanic off
+//@   modifies *
+//@   only nothing
+//@   loop#3 skip
+//@   loop#1 invariant[C18] err == nil
